@@ -23,6 +23,7 @@ import (
 	"os"
 	"path/filepath"
 	"sort"
+	"sync"
 	"time"
 
 	"github.com/glowlabs-org/gca-backend/client"
@@ -214,6 +215,7 @@ type caseCfg struct {
 	Servers  []srvCfg `json:"servers"`
 	Liveness bool     `json:"liveness,omitempty"`
 	Shape    string   `json:"shape,omitempty"`
+	Variant  string   `json:"variant,omitempty"`
 	ShapeLen int      `json:"shape_len,omitempty"`
 	ShapeSHA string   `json:"shape_sha256,omitempty"`
 	custom   []byte
@@ -286,6 +288,19 @@ func (x *ctx) entryFor(j int, banned bool) refenc.AuthServer {
 	return refenc.AuthServer{Pub: x.rogues[j].Key.Pub, Banned: banned, Location: "127.0.0.1", TCP: x.rogues[j].Port, UDP: x.rogues[j].udp.Port}.Signed(x.gca.Priv)
 }
 
+// banRecord: a GCA-signed ban of server k. A ban record need not repeat the
+// server's address: half of them carry a shorter (or empty) location than the
+// entry the client has stored, so the saved server list shrinks.
+func (x *ctx) banRecord(k int) refenc.AuthServer {
+	e := x.entryFor(k, true)
+	if x.rng.Intn(2) == 0 {
+		e.Location = []string{"", "x", "gone"}[x.rng.Intn(3)]
+		e = e.Signed(x.gca.Priv)
+		x.r.Count("ban_records_with_shorter_location", 1)
+	}
+	return e
+}
+
 // mkList draws the server list that server j announces in its genuine reply.
 func (x *ctx) mkList(j int) (list []refenc.AuthServer, selfBan bool) {
 	rng := x.rng
@@ -310,11 +325,11 @@ func (x *ctx) mkList(j int) (list []refenc.AuthServer, selfBan bool) {
 			if p < 50 {
 				list = append(list, x.entryFor(k, false)) // un-ban attempt (an older, validly signed entry)
 			} else if p < 65 {
-				list = append(list, x.entryFor(k, true))
+				list = append(list, x.banRecord(k))
 			}
 		default:
 			if p < 25 {
-				list = append(list, x.entryFor(k, true))
+				list = append(list, x.banRecord(k))
 			} else if p < 35 {
 				e := x.entryFor(k, false)
 				e.TCP, e.UDP = x.closedPt, x.sink.Port // changed ports for a known server: must be ignored
@@ -418,6 +433,16 @@ func (x *ctx) setup() error {
 			}
 			raw := x.cc.custom
 			rg.setBehave(func(n int) action { return action{Kind: "reply", Reply: raw, CloseAfter: -1, Tag: tag} })
+		case s.Outcome == "wrongkey":
+			// validly signed, well formed replies that name a different (random) equipment key
+			// each time: every rejection is a new, long, distinct line in the client's event log
+			env := shapeEnv{rng: rand.New(rand.NewSource(x.cc.Seed*37 + int64(j))), dev: x.dev, gca: x.gca, srv: rg.Key, udp: x.sink.Port, closedPt: x.closedPt, latest: x.latest}
+			var emu sync.Mutex
+			rg.setBehave(func(n int) action {
+				emu.Lock()
+				defer emu.Unlock()
+				return action{Kind: "reply", Reply: env.gen("wrong-devkey"), CloseAfter: -1, Tag: -1}
+			})
 		case s.Outcome == "reset":
 			rg.setBehave(func(n int) action {
 				if n%3 == 0 {
@@ -636,16 +661,26 @@ func (x *ctx) checkMonotone(label, where string, prev map[[32]byte]bool, present
 	}
 }
 
-func (x *ctx) checkFile(label string) {
+func (x *ctx) checkFile(label string) map[[32]byte]refenc.MapEntry {
 	raw, err := os.ReadFile(filepath.Join(x.cdir, client.GCAServerMapFile))
 	if err != nil {
 		x.r.Violationf("server-map-file-unreadable", x.replay(map[string]interface{}{"label": label}), "%s: %v", label, err)
-		return
+		return nil
 	}
 	m, err := refenc.ParseServerMap(raw)
 	if err != nil {
 		x.r.Violationf("server-map-file-unreadable", x.replay(map[string]interface{}{"label": label, "file_hex": hex.EncodeToString(raw)}), "%s: gcaServers.dat does not parse: %v", label, err)
-		return
+		return nil
+	}
+	// the file is exactly one record per listed server, nothing before, between or after
+	want := 0
+	for _, e := range m {
+		want += 41 + len(e.Location)
+	}
+	if want != len(raw) {
+		x.r.Violationf("server-map-file-unreadable", x.replay(map[string]interface{}{"label": label, "file_hex": hex.EncodeToString(raw)}),
+			"%s: gcaServers.dat has %d bytes but its %d distinct records account for %d (duplicate or stale records)", label, len(raw), len(m), want)
+		return nil
 	}
 	x.checkMonotone(label, "gcaServers.dat", x.prevFile, func(k [32]byte) (bool, bool) { e, ok := m[k]; return ok, e.Banned })
 	nb := map[[32]byte]bool{}
@@ -656,6 +691,7 @@ func (x *ctx) checkFile(label string) {
 	}
 	x.prevFile = nb
 	x.r.Count("file_checks", 1)
+	return m
 }
 
 // checkState must only be called when the mutex is known to be free.
@@ -665,7 +701,25 @@ func (x *ctx) checkState(label string, primaryClause bool, file bool) client.Ver
 	x.prevMem = bannedOfState(st)
 	x.r.Count("state_checks", 1)
 	if file {
-		x.checkFile(label)
+		// at quiescence the saved list is the reference serialization of the state
+		if m := x.checkFile(label); m != nil {
+			diff := ""
+			if len(m) != len(st.Servers) {
+				diff = fmt.Sprintf("file lists %d servers, memory %d", len(m), len(st.Servers))
+			}
+			for k, s := range st.Servers {
+				e, ok := m[[32]byte(k)]
+				if !ok {
+					diff = fmt.Sprintf("server %x is in memory but not in the file", k[:6])
+				} else if e.Banned != s.Banned || e.Location != s.Location || e.HTTP != s.HttpPort || e.TCP != s.TcpPort || e.UDP != s.UdpPort {
+					diff = fmt.Sprintf("server %x: file {banned %v %q %d/%d/%d} memory {banned %v %q %d/%d/%d}", k[:6], e.Banned, e.Location, e.HTTP, e.TCP, e.UDP, s.Banned, s.Location, s.HttpPort, s.TcpPort, s.UdpPort)
+				}
+			}
+			x.r.Count("state_equals_file_checks", 1)
+			if diff != "" {
+				x.r.Violationf("server-map-file-differs-from-state", x.replay(map[string]interface{}{"label": label}), "%s: with no round in progress gcaServers.dat differs from the client's state: %s", label, diff)
+			}
+		}
 	}
 	any := false
 	for _, s := range st.Servers {
@@ -768,7 +822,7 @@ func (x *ctx) round(label string) (ok bool, abort bool) {
 	if ok && accepted >= 0 && x.selfBan[accepted] {
 		x.r.Count("accepted_replies_banning_their_sender", 1)
 	}
-	x.checkState(label, pc, true)
+	x.checkState(label, pc, quiet) // the file is only read when no background round can be writing it
 	nt := false
 	for _, s := range x.cc.Servers {
 		if s.Outcome != "success" || s.Banned {
